@@ -660,6 +660,86 @@ def iterator_reuse(prog: Program) -> RuleResult:
                 )
             else:
                 res.ok(construct, f"`{short(val, 50)}` consumed at most once per binding")
+    # across calls: a one-shot iterator handed to a parameter that the callee walks more than once
+    from ..resolve import resolve_callee
+
+    def is_one_shot(fn_, expr) -> bool:
+        if isinstance(expr, ast.GeneratorExp):
+            return True
+        if isinstance(expr, ast.Call):
+            fname = dotted(expr.func) or ""
+            return fname in ONE_SHOT_CALLS or (isinstance(expr.func, ast.Name) and expr.func.id in gens)
+        if isinstance(expr, ast.Name):
+            defs = [a for a in walk_no_nested(fn_) if isinstance(a, ast.Assign) and len(a.targets) == 1 and isinstance(a.targets[0], ast.Name) and a.targets[0].id == expr.id]
+            return bool(defs) and all(is_one_shot(fn_, a.value) for a in defs if not (isinstance(a.value, ast.Name) and a.value.id == expr.id))
+        return False
+
+    multi_cache: Dict[Tuple[int, str], Optional[ast.AST]] = {}
+
+    def walked_twice(cfn, pname) -> Optional[ast.AST]:
+        ck = (id(cfn), pname)
+        if ck in multi_cache:
+            return multi_cache[ck]
+        sites = []
+        materialised = False
+        for st in cfn.body:
+            if isinstance(st, ast.Assign) and len(st.targets) == 1 and isinstance(st.targets[0], ast.Name) and st.targets[0].id == pname:
+                if isinstance(st.value, ast.Call) and dotted(st.value.func) in ("list", "tuple", "sorted", "set", "frozenset"):
+                    materialised = True
+                break
+            if any(isinstance(n, ast.Name) and n.id == pname for n in ast.walk(st)):
+                break
+        if not materialised:
+            for use in walk_no_nested(cfn):
+                if isinstance(use, (ast.For, ast.comprehension)) and isinstance(use.iter, ast.Name) and use.iter.id == pname:
+                    anchor = use if isinstance(use, ast.For) else use.iter
+                    lp = [l for l in loops_around(cfn, anchor) if l is not use]
+                    sites.append((anchor, bool(lp)))
+                elif isinstance(use, ast.Call) and any(isinstance(a, ast.Name) and a.id == pname for a in use.args):
+                    fname = dotted(use.func) or ""
+                    if fname in ("list", "tuple", "set", "sorted", "sum", "max", "min", "any", "all", "dict") or fname in ONE_SHOT_CALLS:
+                        sites.append((use, bool(loops_around(cfn, use))))
+        verdict = None
+        if len(sites) >= 2:
+            verdict = sorted(sites, key=lambda s_: getattr(s_[0], "lineno", 0))[1][0]
+        elif sites and sites[0][1]:
+            verdict = sites[0][0]
+        multi_cache[ck] = verdict
+        return verdict
+
+    from ..flow import loops_around
+
+    for mod, qual, fn in prog.functions():
+        key = _modkey(mod)
+        idx = 0
+        for call in walk_no_nested(fn):
+            if not isinstance(call, ast.Call):
+                continue
+            shots = [(i, a, None) for i, a in enumerate(call.args) if is_one_shot(fn, a)] + [(None, kw.value, kw.arg) for kw in call.keywords if kw.arg and is_one_shot(fn, kw.value)]
+            if not shots:
+                continue
+            callee = resolve_callee(prog, mod, call.func)
+            if callee is None or not isinstance(callee[1], (ast.FunctionDef, ast.AsyncFunctionDef)):
+                continue
+            cfn = callee[1]
+            cparams = [a.arg for a in cfn.args.posonlyargs + cfn.args.args]
+            for pos, arg, kwname in shots:
+                pname = kwname if kwname else (cparams[pos] if pos is not None and pos < len(cparams) else None)
+                if pname is None:
+                    continue
+                construct = f"{key}:{qual}/one-shot-argument#{idx}[{cfn.name}.{pname}]"
+                idx += 1
+                second = walked_twice(cfn, pname)
+                if second is not None:
+                    res.fail(
+                        construct,
+                        f"`{short(arg, 60)}` is a one-shot iterator, but `{cfn.name}` walks its parameter `{pname}` more than once "
+                        f"(again at `{short(second, 50)}`): the second walk sees nothing",
+                        mod,
+                        call,
+                    )
+                else:
+                    res.ok(construct, f"`{cfn.name}` walks `{pname}` once")
     res.floor(1)
     return res
 
